@@ -54,7 +54,8 @@ def shards(tier, seed):
             out.append({"tier": tier, "what": "parallel", "inner": inner, "pool": p})
             for mc in b["max_candidates"]:
                 out.append({"tier": tier, "what": "subsample", "inner": inner, "pool": p, "mc": mc})
-    for inner in ("UncertaintySampling[entropy]", "RandomSampling", "ProbabilisticAL"):
+    # CoreSet: a batch-aware inner strategy whose utility rows grow from step to step (all zeros at cold start, distances afterwards)
+    for inner in ("UncertaintySampling[entropy]", "RandomSampling", "ProbabilisticAL", "CoreSet"):
         out.append({"tier": tier, "what": "saw", "inner": inner, "pool": "line4"})
     return out
 
